@@ -551,6 +551,9 @@ NameMatches(it, p) == CASE p.k \in {"fresh", "dash"} -> TRUE
 CmdMatches(c, p) == \/ p.k = "fresh"
                     \/ p.k = "word" /\ (IsPrefix(p.cs, c.nchars[1]) \/ (c.shorts # <<>> /\ p.cs = <<c.shorts[1]>>))
 LevelCmds(lvl) == IF lvl.tail.kind = "cmd" THEN RangeOf(lvl.tail.cmds) ELSE {}
+\* a command under `hide` parses like any other; it is not listed, documented or offered
+CmdHidden(c) == "hidden" \in DOMAIN c /\ c.hidden
+VisibleCmds(lvl) == {c \in LevelCmds(lvl) : ~CmdHidden(c)}
 \* upper bound: visible names of the active or an enclosing level that match what was typed, values of
 \* the user's completer for the argument being typed, and the `--` hint of strict positionals
 MayOffer(s, p) ==
@@ -558,7 +561,7 @@ MayOffer(s, p) ==
   \* after `--` everything typed is data: no name, no subcommand and no `--` is a candidate any more
   IF s.posOnly THEN {"--"} ELSE
   UNION {{Pref(l.named[k]) : k \in {k \in DOMAIN l.named : ~l.named[k].hidden /\ NameMatches(l.named[k], p)}} : l \in lvls}
-  \cup UNION {{c.names[1] : c \in {c \in LevelCmds(l) : CmdMatches(c, p)}} : l \in lvls}
+  \cup UNION {{c.names[1] : c \in {c \in VisibleCmds(l) : CmdMatches(c, p)}} : l \in lvls}
   \cup (IF s.pending # "" THEN RangeOf(ItemById(Cur(s).lvl, s.pending).completer) ELSE {})
   \cup {"--"}
 \* lower bound, for a freshly typed prefix: every visible name of the active level that extends it and
@@ -566,10 +569,10 @@ MayOffer(s, p) ==
 MustOffer(s, p) ==
   IF s.pending # "" \/ s.posOnly THEN {}
   ELSE IF p.k = "word" THEN   \* the beginning of a subcommand name of the active level
-       {c.names[1] : c \in {c \in LevelCmds(Cur(s).lvl) : IsPrefix(p.cs, c.nchars[1])}}
+       {c.names[1] : c \in {c \in VisibleCmds(Cur(s).lvl) : IsPrefix(p.cs, c.nchars[1])}}
   ELSE IF p.k \notin {"fresh", "dash", "long"} THEN {}
   ELSE LET f == Cur(s) IN
-       (IF p.k = "fresh" THEN {c.names[1] : c \in LevelCmds(f.lvl)} ELSE {}) \cup
+       (IF p.k = "fresh" THEN {c.names[1] : c \in VisibleCmds(f.lvl)} ELSE {}) \cup
        {Pref(f.lvl.named[k]) : k \in {k \in DOMAIN f.lvl.named :
             /\ ~f.lvl.named[k].hidden /\ NameMatches(f.lvl.named[k], p)
             /\ ~(SingleUse(f.lvl.named[k]) /\ f.acc[f.lvl.named[k].id] # <<>>)}}
